@@ -2,7 +2,7 @@
    Proved per module model (the list grows with the models); the whole-app round
    trip (all Kava modules + auth, bank, staking, gov) is observed by the driver. *)
 From Kava Require Import Base.Prelude Model.Precisebank Proofs.Precisebank
-  Model.PrecisebankGenesis Proofs.PrecisebankGenesis.
+  Model.PrecisebankGenesis Proofs.PrecisebankGenesis Model.GenesisOrder.
 
 (* precisebank: for every state satisfying the module invariant, the exported genesis
    passes validation, InitGenesis does not panic, and the imported state has the same
@@ -46,3 +46,14 @@ Example C14_roundtrip_nonvacuous :
   inv_b e s = true /\ export_genesis e s = mkGen [(0%nat, 999999999999); (1%nat, 999999999990)] 11
   /\ class_of (init_genesis e s (export_genesis e s)) = ROk.
 Proof. cbv zeta. repeat split; vm_compute; reflexivity. Qed.
+
+(* The order in which InitGenesis runs (table re-read from app/app.go on every run): the genesis
+   invariant assertion of x/crisis comes last, after every module whose state a registered
+   invariant reads, and the orderings the modules' InitGenesis functions rely on hold. *)
+Theorem C14_crisis_runs_last : crisis_last = true.
+Proof. vm_compute. reflexivity. Qed.
+Print Assumptions C14_crisis_runs_last.
+
+Theorem C14_genesis_dependencies_respected : genesis_dependencies_respected = true.
+Proof. vm_compute. reflexivity. Qed.
+Print Assumptions C14_genesis_dependencies_respected.
